@@ -460,6 +460,25 @@ class _MergedCircuit:
         return circuits.Circuit(moments)
 
 
+def _shares_keys_with_rest_of_moment(
+    c: Component, moment: cirq.Moment, op: cirq.Operation
+) -> bool:
+    """Checks whether an operation of `moment` other than `op` records or reads a key of `c`.
+
+    Such operations have not been added to the merged circuit yet, so moving `c` into `moment`
+    could reorder a measurement and a classical control (or two measurements) sharing a key.
+    """
+    if not c.mkeys and not c.ckeys:
+        return False
+    for other in moment.operations:
+        if other is op:
+            continue
+        other_mkeys = protocols.measurement_key_objs(other)
+        if c.mkeys & (other_mkeys | protocols.control_keys(other)) or c.ckeys & other_mkeys:
+            return True
+    return False
+
+
 def _merge_operations_impl(
     circuit: CIRCUIT_TYPE,
     cset: ComponentSet,
@@ -551,8 +570,10 @@ def _merge_operations_impl(
                 # Case-2: left_c will merge right into `c` whenever possible.
                 for left_c in left_comp:
                     is_merged = False
-                    if c_qs.issuperset(left_c.qubits) and merged_circuit.can_move_to_latest_moment(
-                        left_c
+                    if (
+                        c_qs.issuperset(left_c.qubits)
+                        and merged_circuit.can_move_to_latest_moment(left_c)
+                        and not _shares_keys_with_rest_of_moment(left_c, current_moment, op)
                     ):
                         # Make a shallow copy of the left component data before merge
                         left_c_data = copy.copy(left_c)
